@@ -2,8 +2,9 @@
 json_parser handles primitive json parsing. It doesn't handle unicode or
 numbers in scientific notation.
 """
-from insights.parsr import (Colon, Comma, EOF, Forward, Literal, LeftBracket,
-        LeftCurly, Number, RightBracket, RightCurly, QuotedString, WS)
+import string
+from insights.parsr import (Colon, Comma, EmptyQuotedString, EOF, Forward, Literal,
+        LeftBracket, LeftCurly, Number, RightBracket, RightCurly, WS)
 
 
 def loads(data):
@@ -19,9 +20,11 @@ JsonObject = Forward()
 TRUE = Literal("true", value=True)
 FALSE = Literal("false", value=False)
 NULL = Literal("null", value=None)
-SimpleValue = (Number | QuotedString | JsonObject | JsonArray | TRUE | FALSE | NULL)
+# QuotedString requires at least one character, but "" is a valid json string.
+JsonString = EmptyQuotedString(string.printable) % "quoted string"
+SimpleValue = (Number | JsonString | JsonObject | JsonArray | TRUE | FALSE | NULL)
 JsonValue = (WS >> SimpleValue << WS)
-Key = (QuotedString << Colon)
+Key = (JsonString << Colon)
 KVPairs = (((WS >> Key) + JsonValue).sep_by(Comma))
 JsonArray <= (LeftBracket >> JsonValue.sep_by(Comma) << RightBracket)
 JsonObject <= (LeftCurly >> KVPairs.map(lambda res: dict((k, v) for (k, v) in res)) << RightCurly)
